@@ -180,8 +180,8 @@ SENSITIVITY = [
     ("decode_85: 'z' -> 'y'", E, [("Some(b'z') =>", "Some(b'y') =>"), ("Some(0x7A) =>", "Some(0x79) =>")]),
     ("decode_85: padding of the empty tail 'u' -> 'v'", E, [("[b'u'; 5]", "[b'v'; 5]"), ("[117; 5]", "[118; 5]")]),
     ("decode_85: '>' after '~' -> '<'", E, [("(Some(b'>'), None) => Ok(out)", "(Some(b'<'), None) => Ok(out)")]),
-    ("run_length_decode: literal runs below 127", E, [("if length < 128 {", "if length < 127 {"), ("if len_byte < 128 {", "if len_byte < 127 {"), ("            0..=127 => {", "            0..=126 => {"), ("if length < RUN_LENGTH_EOD {", "if length < RUN_LENGTH_EOD - 1 {")]),
-    ("run_length_decode: repeat base 257 -> 256", E, [("257 - length", "256 - length"), ("257 - len_byte", "256 - len_byte"), ("257 - run", "256 - run")]),
+    ("run_length_decode: literal runs below 127", E, [("if length < 128 {", "if length < 127 {"), ("if len_byte < 128 {", "if len_byte < 127 {"), ("            0..=127 => {", "            0..=126 => {"), ("if length < RUN_LENGTH_EOD {", "if length < RUN_LENGTH_EOD - 1 {"), ("length @ 0 ..= 127 =>", "length @ 0 ..= 126 =>"), ("            0 ..= 127 => {", "            0 ..= 126 => {")]),
+    ("run_length_decode: repeat base 257 -> 256", E, [("257 - length", "256 - length"), ("257 - len_byte", "256 - len_byte"), ("257 - run", "256 - run"), ("257 - length as usize", "256 - length as usize")]),
     ("PredictorType::from_u8: 3 -> Paeth", E, [("3 => Ok(PredictorType::Avg),", "3 => Ok(PredictorType::Paeth),"), ("3 => PredictorType::Avg,", "3 => PredictorType::Paeth,")]),
     ("PredictorType::from_u8: arm 4 dropped", E, [("            4 => Ok(PredictorType::Paeth),\n", ""), ("            4 => PredictorType::Paeth,\n", "")]),
     ("unpredict: PNG from 11", E, [("if predictor >= 10 {", "if predictor > 10 {"), ("if predictor > 9 {", "if predictor > 10 {"), ("10..=i32::MAX => png_unpredict", "11..=i32::MAX => png_unpredict")]),
@@ -235,9 +235,9 @@ SENSITIVITY = [
     ("xref stream: fields of a type-1 entry swapped", PX, [("XRef::Raw {pos: field1 as usize, gen_nr: field2 as GenNr}", "XRef::Raw {pos: field2 as usize, gen_nr: field1 as GenNr}"), ("XRef::Raw { pos: field1 as usize, gen_nr: field2 as GenNr }", "XRef::Raw { pos: field2 as usize, gen_nr: field1 as GenNr }"), ("            1 => XRef::Raw {\n                pos: field1 as usize,\n                gen_nr: field2 as GenNr,", "            1 => XRef::Raw {\n                pos: field2 as usize,\n                gen_nr: field1 as GenNr,")]),
     ("xref stream: type 2 entry read as type 3", PX, [("2 => XRef::Stream {", "3 => XRef::Stream {")]),
     ("xref stream: default type 0", PX, [("if w0 == 0 {\n            1\n", "if w0 == 0 {\n            0\n"), ("0 => 1,\n            _ => read_u64_from_stream(w0, data)?,", "0 => 0,\n            _ => read_u64_from_stream(w0, data)?,"), ("let _type = if w0 == 0 { 1 } else {", "let _type = if w0 == 0 { 0 } else {")]),
-    ("read_u64_from_stream: 4 bits per byte", PX, [("= 8 * i;", "= 4 * i;"), ("= 8 * remaining;", "= 4 * remaining;"), ("= i * 8;", "= i * 4;"), ("|acc, &c| (acc << 8) | u64::from(c)", "|acc, &c| (acc << 4) | u64::from(c)")]),
+    ("read_u64_from_stream: 4 bits per byte", PX, [("= 8 * i;", "= 4 * i;"), ("= 8 * remaining;", "= 4 * remaining;"), ("= i * 8;", "= i * 4;"), ("|acc, &c| (acc << 8) | u64::from(c)", "|acc, &c| (acc << 4) | u64::from(c)"), ("|value, &byte| (value << 8) | u64::from(byte)", "|value, &byte| (value << 4) | u64::from(byte)")]),
     ("read_u64_from_stream: width limit u32", PX, [("size_of::<u64>()", "size_of::<u32>()")]),
-    ("xref table: keyword f -> F", PX, [('if w3 == "f" {', 'if w3 == "F" {'), ('if keyword == "f" {', 'if keyword == "F" {'), ('if kind == "f" {', 'if kind == "F" {')]),
+    ("xref table: keyword f -> F", PX, [('if w3 == "f" {', 'if w3 == "F" {'), ('if keyword == "f" {', 'if keyword == "F" {'), ('if kind == "f" {', 'if kind == "F" {'), ('b"f" => section.add_free_entry', 'b"F" => section.add_free_entry')]),
     ("xref table: offset read as u32", PX, [("w1.to::<usize>()", "w1.to::<u32>()"), ("first.to::<usize>()", "first.to::<u32>()")]),
     # ---- gen/extract_storage.py
     ("write_revision: endobj without LF (seeded C04b)", FI, [('writeln!(self.backend, "\\nendobj")?;', 'writeln!(self.backend, "endobj")?;')]),
@@ -284,7 +284,7 @@ SENSITIVITY = [
     ("Storage::update: a compressed object cannot be updated", FI, [("XRef::Stream { .. } => PlainRef { id: old.id, gen: 0 },", "XRef::Stream { .. } => panic!(),"), ("XRef::Stream { .. } | XRef::Promised => PlainRef { id: old.id, gen: 0 },", "XRef::Stream { .. } | XRef::Promised => panic!(),")]),
     ("Storage::update: generation of the entry ignored", FI, [("XRef::Raw { gen_nr, .. } => PlainRef { id: old.id, gen: gen_nr },", "XRef::Raw { .. } => PlainRef { id: old.id, gen: 0 },")]),
     ("StorageResolver::get: cached error not wrapped", FI, [("Err(e) if computed => Err(PdfError::Shared { source: e.clone()}),", "Err(e) if computed => Err(e.clone()),"), ("Err(e) if computed => Err(PdfError::Shared { source: e }),", "Err(e) if computed => Err(e),")]),
-    ("NameTree::walk: depth budget 31", TY, [("self.walk_limited(r, callback, 32,", "self.walk_limited(r, callback, 31,", 0)]),
+    ("NameTree::walk: depth budget 31", TY, [("self.walk_limited(r, callback, 32,", "self.walk_limited(r, callback, 31,", 0), ("const MAX_TREE_DEPTH: usize = 32;", "const MAX_TREE_DEPTH: usize = 31;")]),
     ("ColorSpace: depth budget 4", "pdf/src/object/color.rs", [("ColorSpace::from_primitive_depth(p, resolve, 5)", "ColorSpace::from_primitive_depth(p, resolve, 4)"), ("const MAX_NESTING: usize = 5;", "const MAX_NESTING: usize = 4;"), ("const MAX_BASE_DEPTH: usize = 5;", "const MAX_BASE_DEPTH: usize = 4;")]),
     ("Function type 2: domain guard 1", "pdf/src/object/function.rs", [("if raw.domain.len() < 2 {", "if raw.domain.len() < 1 {")]),
     ("Encoding differences: gid += 1", "pdf/src/encoding.rs", [("gid = gid.wrapping_add(1);", "gid += 1;")]),
@@ -315,7 +315,7 @@ SENSITIVITY = [
     ("XRefTable::get: missing entry is a NullRef", X_, [("None => Err(PdfError::UnspecifiedXRefEntry {id}),", "None => Err(PdfError::NullRef {obj_nr: id}),"), (".ok_or(PdfError::UnspecifiedXRefEntry { id })", ".ok_or(PdfError::NullRef { obj_nr: id })"), (".ok_or_else(|| PdfError::UnspecifiedXRefEntry { id })", ".ok_or_else(|| PdfError::NullRef { obj_nr: id })"), (".ok_or(PdfError::UnspecifiedXRefEntry {id})", ".ok_or(PdfError::NullRef {obj_nr: id})")]),
     ("save: the table is not rolled back", FI, [("            self.refs.truncate(num_refs);\n", ""), ("                self.refs.truncate(num_refs);\n", "")]),
     ("save: the error of write_revision is swallowed", FI, [("            self.refs.truncate(num_refs);\n            return Err(e);", "            self.refs.truncate(num_refs);"), ("                self.refs.truncate(num_refs);\n                return Err(e);", "                self.refs.truncate(num_refs);")]),
-    ("xref table: n and f exchanged", PX, [('if w3 == "f" {', 'if w3 == "n" {', 0), ('if kind == "n" {', 'if kind == "f" {', 0), ('if keyword == "f" {', 'if keyword == "n" {', 0)]),
+    ("xref table: n and f exchanged", PX, [('if w3 == "f" {', 'if w3 == "n" {', 0), ('if kind == "n" {', 'if kind == "f" {', 0), ('if keyword == "f" {', 'if keyword == "n" {', 0), ('b"f" => section.add_free_entry', 'b"n" => section.add_free_entry')]),
     ("xref table: trailer keyword in the entry loop", PX, [('if w1 == "trailer" {', 'if w1 == "trailers" {'), ('if first == "trailer" {', 'if first == "trailers" {')]),
     ("write_revision: startxref tail without final newline", FI, [('"\\nstartxref\\n{}\\n%%EOF\\n"', '"\\nstartxref\\n{}\\n%%EOF"'), ('writeln!(self.backend, "\\nstartxref\\n{xref_pos}\\n%%EOF")', 'write!(self.backend, "\\nstartxref\\n{xref_pos}\\n%%EOF")')]),
     ("write_revision: object header keyword", FI, [('"{} {} obj", id, gen', '"{} {} objx", id, gen'), ('"{id} {gen} obj"', '"{id} {gen} objx"')]),
@@ -328,7 +328,7 @@ SENSITIVITY = [
     ("deep_clone_op: XObject looked up among the fonts (seeded C20b)", CO, [("if !resources.xobjects.contains_key(name) {", "if !resources.fonts.contains_key(name) {")]),
     # ---- round 3: named constants, one more level of helpers, evaluated dispatch
     ("const: ASCII85 first symbol", E, [("const A85_FIRST: u8 = b'!';", "const A85_FIRST: u8 = b'\\\"';"), ("b @ 0x21 ..= 0x75 => Some(b - 0x21)", "b @ 0x22 ..= 0x75 => Some(b - 0x22)")]),
-    ("const: run-length EOD marker 127", E, [("const RUN_LENGTH_EOD: u8 = 128;", "const RUN_LENGTH_EOD: u8 = 127;"), ("} else if length >= 129 {", "} else if length >= 128 {"), ("} else if len_byte >= 129 {", "} else if len_byte >= 128 {")]),
+    ("const: run-length EOD marker 127", E, [("const RUN_LENGTH_EOD: u8 = 128;", "const RUN_LENGTH_EOD: u8 = 127;"), ("} else if length >= 129 {", "} else if length >= 128 {"), ("} else if len_byte >= 129 {", "} else if len_byte >= 128 {"), ("            128 => break, // EOD", "            127 => break, // EOD")]),
     ("const: a local const shadows nothing else (PAGE depth)", TY, [("const PAGE_TREE_DEPTH: usize = 16;", "const PAGE_TREE_DEPTH: usize = 15;"), ("const MAX_PAGE_TREE_DEPTH: usize = 16;", "const MAX_PAGE_TREE_DEPTH: usize = 15;"), ("self.page_limited(resolve, page_nr, 16)", "self.page_limited(resolve, page_nr, 15)")]),
     ("const: AES IV length", C, [("const AES_IV_LEN: usize = 16;", "const AES_IV_LEN: usize = 15;"), ("let (iv, ciphertext) = data.split_at_mut(16);", "let (iv, ciphertext) = data.split_at_mut(15);", 0)]),
     ("const: AES salt", C, [('const AES_SALT: &[u8; 4] = b"sAlT";', 'const AES_SALT: &[u8; 4] = b"sAlt";'), ('b"sAlT"', 'b"salT"'), ("[0x73, 0x41, 0x6C, 0x54]", "[0x73, 0x61, 0x6C, 0x54]"), ("[b's', b'A', b'l', b'T']", "[b's', b'a', b'l', b'T']")]),
@@ -337,10 +337,16 @@ SENSITIVITY = [
     ("const table: inline-image key abbreviation", CO, [('("BPC", "BitsPerComponent"),', '("BPC", "BitsPerComponents"),')]),
     ("const table: lexer delimiters", L, [('const DELIMITERS: &[u8] = b"()<>[]{}/%";', 'const DELIMITERS: &[u8] = b"()<>[]{}/";'), ('b"()<>[]{}/%".contains(b)', 'b"()<>[]{}%".contains(b)'), (" | b'/' | b'%'))", " | b'%'))")]),
     ("unpredict: TIFF value 3", E, [("            2 => tiff_unpredict(decoded, params),", "            3 => tiff_unpredict(decoded, params),"), ("} else if predictor == 2 {", "} else if predictor == 3 {"), ("        2 => tiff_unpredict(decoded, params),", "        3 => tiff_unpredict(decoded, params),")]),
-    ("run_length_decode: repeat runs from 130", E, [("            129..=255 => {", "            130..=255 => {"), ("} else if length >= 129 {", "} else if length >= 130 {"), ("} else if length > RUN_LENGTH_EOD {", "} else if length > RUN_LENGTH_EOD + 1 {"), ("} else if len_byte >= 129 {", "} else if len_byte >= 130 {")]),
+    ("run_length_decode: repeat runs from 130", E, [("            129..=255 => {", "            130..=255 => {"), ("} else if length >= 129 {", "} else if length >= 130 {"), ("} else if length > RUN_LENGTH_EOD {", "} else if length > RUN_LENGTH_EOD + 1 {"), ("} else if len_byte >= 129 {", "} else if len_byte >= 130 {"), ("length @ 129 ..= 255 =>", "length @ 130 ..= 255 =>"), ("            129 ..= 255 => {", "            130 ..= 255 => {")]),
     ("serialize_ops: keyword handed to the name-operand helper", CO, [('serialize_name_op(name, "gs", f)?', 'serialize_name_op(name, "gS", f)?'), ('writeln!(f, " gs")?;', 'writeln!(f, " gS")?;')]),
     ("next_word: an unterminated comment stops one byte early", L, [(".map_or(self.buf.len(), |off| pos + off + 1);", ".map_or(self.buf.len() - 1, |off| pos + off + 1);"), ("None => pos = self.buf.len(),", "None => pos = self.buf.len() - 1,")]),
     ("from_password: R5 password truncation dropped", C, [("&password_encoded[..password_encoded.len().min(MAX_PASSWORD_LEN_V5)];", "&password_encoded[..password_encoded.len()];"), ("password_encoded = &password_encoded[..127];", "password_encoded = &password_encoded[..128];")]),
+    # ---- round 4
+    ("OpBuilder::add: the integer operand of j is read as a number", CO, [("fn integer(args: &mut impl Iterator<Item=Primitive>) -> Result<i32> {\n    args.next().ok_or(PdfError::NoOpArg)?.as_integer()", "fn integer(args: &mut impl Iterator<Item=Primitive>) -> Result<i32> {\n    args.next().ok_or(PdfError::NoOpArg)?.as_number()"),
+                                                                        ("let n = args.next().ok_or(PdfError::NoOpArg)?.as_integer()?;", "let n = args.next().ok_or(PdfError::NoOpArg)?.as_number()?;", 0)]),
+    ("write_revision: position of the xref stream object absolute", FI, [("let xref_pos = self.backend.len() - self.start_offset;", "let xref_pos = self.backend.len();")]),
+    ("write_revision: position of the xref stream object taken after its header is written", FI, [("        let xref_pos = self.backend.len() - self.start_offset;\n", "        writeln!(self.backend, \"\")?;\n        let xref_pos = self.backend.len() - self.start_offset;\n")]),
+    ("next_stream: the second byte is read at pos + 2", L, [("self.buf.get(pos + 1).ok_or(PdfError::EOF)?;", "self.buf.get(pos + 2).ok_or(PdfError::EOF)?;")]),
     # ---- gen/extract_pagetree.py
     ("PagesNode: /Type /Pagez", TY, [('"Pages" => Ok(PagesNode::Tree(', '"Pagez" => Ok(PagesNode::Tree(')]),
 ]
